@@ -8,6 +8,11 @@ ALL = ["C%02d" % i for i in range(1, 21)]
 
 # pid -> (category, level text, level note, technique, design_ref)
 CHECKS = {
+ "C03": ("proof",
+         "Executable model (Model/Verdict.v) of parseInterpretation's effect, the collector's tallies, checkAuditViolations, the -S early exit and conduct's four-stage error funnel with ignCancel and the deferred audit re-check. Theorems: per (auditor, result) pair the last applicable clause decides for every clause sequence incl. the shorthand and members declared later; the verdict is non-nil iff the documented rule says so; for every interpretation and report stream -S yields the same verdict (stops early only when already fouled); for all seven finish orders and all component error values an audit verdict, a cleanup failure and every component error that does not present itself as a cancellation reach the exit status, and a non-zero status has a cause; the full funnel statement is refuted with a witness (a real cause hidden behind a trailing cancellation is dropped). Tie: 500 (thorough 10000) generated audiences with interpretation sections x histories through the real audition+collector functions without and with -S, compared in Coq with the model and with the documented rule computed from the implementation's own tallies and the generator's independent last-wins computation; plus 32 end-to-end plays of the real binary, one per single cause x {-S}, checking exit status and result.js Foul.",
+         "Trusted: Coq kernel+VM, harness+hook. Modelled: error values as cause lists with Is/Unwrap looking at the last element; which error values components produce is observed end-to-end only. Directory/upload failures are outside the model.",
+         "Rocq/Coq proof (induction over clause lists / report streams; case analysis over finish orders) + differential correspondence + end-to-end exit-status plays",
+         "DESIGN.md section 6, C03"),
  "C02": ("proof",
          "The audition round machine (checkEvent, checkEventForAuditor, processAssignments, checkExpect, checkActivationPeriodEnd, setAndActivateVar, processMoodChange, checkFinal) is an executable Gallina model (Model/Audit.v over an expression evaluator Model/Expr.v and the translated FSM tables). Theorems, for every configuration, auditor and event history of any length: the emitted outputs follow the period grammar (Start Report* Report_end Stop)* of Model/AuditSpec.v — reports only inside periods, each period judged by a fresh evaluator from the table's start state (independence), exactly one end-of-period judgement right before Stop; when the history ends with the end of the play every period is closed; the auditing flag follows the sampled activation condition; outside periods nothing is output or written. Proved by a simulation invariant between the model state and the grammar state, lifted through visits, rounds, mood changes and the event loop. Tied to the code on every run: 400 (thorough 8000) generated audiences x histories run through the real audition via a hook; every emitted report/observation/start/stop is compared per round with the model (vm_compute) and, independently of the model, with a period oracle (alternation, closure, NFA check that each period's codes are producible by a fresh evaluator, expected period boundaries for throughout/mood/signal conditions).",
          "Trusted: Coq kernel+VM, harness+hook, generator's two printers (govaluate syntax / Coq AST) agreeing. Modelled not verified: govaluate semantics for the generated subset, float64 as exact rationals, buffered channel sends. Theorem c02_every_period_closed assumes no evaluation error aborted the audition.",
